@@ -24,6 +24,8 @@ fn spaces(tier: Tier) -> Vec<Space> {
             Space { alpha: "A0", depth: 2 },
             Space { alpha: "SHARE", depth: 3 },
             Space { alpha: "MICRO", depth: 3 },
+            Space { alpha: "BIND", depth: 2 },
+            Space { alpha: "CORE", depth: 3 },
         ],
         Tier::Thorough => vec![
             Space { alpha: "A2", depth: 1 },
